@@ -91,6 +91,14 @@ CHECKS["C03"] = (
     "DESIGN.md section 2 / C03",
 )
 
+CHECKS["C04"] = (
+    "proptest-generated C libraries (functions folding their arguments into per-function digests, globals) x options; differential execution: one executable links the clang-compiled definitions with a rustc-compiled caller that includes the bindings, calls every function with boundary/random values and recomputes digests, return values and side effects",
+    "exploration",
+    "Each generated function owns a digest slot in a global array: it folds the canonical 64-bit image of every argument (scalars of all 14 kinds, typedef'd scalars, enum, pointees of const and non-const pointers, every leaf of structs/unions passed by value or by pointer, array parameters, results of calling callbacks and callback factories, variadic tails) into an FNV-style digest, stores it, increments non-const pointees and builds its return value (scalar, enum, struct, pointer) from the digest. The generated Rust caller declares its own values with std::os::raw types, calls through the bindings three times per function, recomputes the digest with the same algorithm and compares slot, return value, returned struct members, returned pointer identity and pointee side effects; globals are read, written and read back through a C accessor, and their mutability is compared with constness. Bindings are located by link_name first (the symbol the binding refers to), every declared symbol must be defined in the object file (nm), and a caller that does not type-check against the bindings is a violation.",
+    "host target only (no Mach-O/Win32 symbol text); C only; noreturn functions are linked, not called.",
+    "DESIGN.md section 2 / C04",
+)
+
 CHECKS["C05"] = (
     "proptest-generated headers of macros (typed C expression grammar made UB-free by a C-typed evaluator), enums and const variables x option sets; differential of every emitted constant between a clang-compiled C probe and a rustc-compiled Rust probe",
     "exploration",
